@@ -97,7 +97,9 @@ def ref_collapsible(triples, top, rm):
         roles = {rels[0][1], rels[1][1]}
         for r, c, s, t in rm.reifications:
             if c == inst[0][2] and roles == {s, t} and len(roles) == 2:
-                out.add(v)
+                src = next(x[2] for x in rels if x[1] == s)
+                if src in variables:        # a relation needs a node as its source
+                    out.add(v)
     return out
 
 
@@ -149,7 +151,11 @@ def _check_inverse(t, name, ctx):
     if len(set(triples)) != len(triples):
         return
     text0 = penman.encode(g0, model=pm)
-    for label, g in (('decoded', g0), ('markerless', Graph(triples, top=g0.top, metadata={'id': '1'}))):
+    variants3 = [('decoded', g0), ('markerless', Graph(triples, top=g0.top, metadata={'id': '1'}))]
+    others = sorted(v for v in g0.variables() if v != g0.top)
+    if others and not ref_collapsible(triples, others[-1], rm):
+        variants3.append(('retopped', Graph(triples, top=others[-1], epidata=g0.epidata)))
+    for label, g in variants3:
         old_vars = set(g.variables())
         try:
             r = transform.reify_edges(g, pm)
